@@ -159,16 +159,13 @@ Definition wf05 (c : case05) : bool :=
   negb (h_nil (k_from c)) && (h_height (k_from c) <? two64) && (k_to c <? two64) && (1 <=? k_per c).
 
 (** known-finding class 1 (narrow): the call panicked, the request was not beyond the slice
-    limit, and some answer carried a header on which the type-level Verify panics ONLY when
-    it is verified against the header directly below it (and no header on which it panics
-    unconditionally): the panic of header.Verify inside verifyChunkBoundaries, which runs
-    outside any recover *)
-Definition marked (k : Z) (h : hdr) : bool := (h_time h mod 10 =? k)%Z.
+    limit, and the model of the current code - in which every panic of the type-level Verify
+    while an answer is processed is recovered - reproduces the panic on the logged answers:
+    it is the panic of header.Verify inside verifyChunkBoundaries, which runs outside any
+    recover. A panic the model does not reproduce (e.g. on a request goroutine) is class 0. *)
 Definition class05 (c : case05) : N :=
   match k_obs c with
-  | OPanic =>
-    if negb (beyond_slices c) && existsb (marked 3) (sent_log (k_log c))
-       && negb (existsb (marked 7) (sent_log (k_log c))) then 1 else 0
+  | OPanic => if negb (beyond_slices c) && agree05 c then 1 else 0
   | _ => 0
   end.
 
